@@ -30,6 +30,8 @@ class PolyplyParser(ITPDirector):
         # the links defined by the file that is parsed; links that
         # other input files added to the force field are left alone
         self.links = []
+        # likewise the blocks that were there before this file was read
+        self.foreign_blocks = {id(block) for block in force_field.blocks.values()}
 
     @SectionLineParser.section_parser('moleculetype', 'citation')
     def _parse_citation(self, line, lineno=0):
@@ -144,6 +146,8 @@ class PolyplyParser(ITPDirector):
 
     def _make_edges(self):
        for block in self.force_field.blocks.values():
+           if id(block) in self.foreign_blocks:
+               continue
            inter_types = list(block.interactions.keys())
            for inter_type in inter_types:
                block.make_edges_from_interaction_type(type_=inter_type)
